@@ -200,6 +200,15 @@ where
 
             CoalesceFuture::Waiting { receiver }
         } else {
+            // We are registered as the leader from here on, but the future that
+            // releases the key on drop does not exist yet: if anything below panics
+            // (`inner.call`, a metrics recorder, a tracing subscriber), release the
+            // key here, or every later request for this key waits forever.
+            let registration = LeaderRegistration {
+                in_flight: &self.in_flight,
+                key: &key,
+            };
+
             // We're the leader, execute the request
             #[cfg(feature = "metrics")]
             {
@@ -209,13 +218,6 @@ where
             #[cfg(feature = "tracing")]
             debug!(coalesce = %name, "Request executing as leader");
 
-            // We are registered as the leader from here on, but the future that
-            // releases the key on drop does not exist yet: if `inner.call` panics,
-            // release it here, or every later request for this key waits forever.
-            let registration = LeaderRegistration {
-                in_flight: &self.in_flight,
-                key: &key,
-            };
             let future = self.inner.call(request);
             std::mem::forget(registration);
             let in_flight = Arc::clone(&self.in_flight);
@@ -229,7 +231,7 @@ where
     }
 }
 
-/// Releases a freshly registered leader key if `inner.call()` unwinds before the
+/// Releases a freshly registered leader key if `call()` unwinds before the
 /// [`CoalesceFuture`] that normally owns the key has been built.
 struct LeaderRegistration<'a, K, Res, E>
 where
